@@ -72,6 +72,9 @@ def main():
     a = ap.parse_args()
     results = []
     if a.seeded:
+        import concurrent.futures as cf
+
+        todo = []
         for d in sorted((VERIF / "seeded").iterdir()):
             meta = d / "meta.json"
             if not meta.exists():
@@ -80,11 +83,19 @@ def main():
             if a.only and a.only != d.name:
                 continue
             for prop in m.get("checks", [m["property"]]):
-                res = run_one(prop, d / "patch.diff", a.tier)
-                res["seeded"] = d.name
-                res["property"] = prop
-                print(json.dumps(res))
-                results.append(res)
+                todo.append((prop, d))
+
+        def one(job):
+            prop, d = job
+            res = run_one(prop, d / "patch.diff", a.tier)
+            res["seeded"] = d.name
+            res["property"] = prop
+            print(json.dumps(res), flush=True)
+            return res
+
+        # SELFVAL_JOBS seeds at a time (each run fans out on its own shards; a run that goes inconclusive under load is simply "not caught": re-run it alone)
+        with cf.ThreadPoolExecutor(max_workers=int(os.environ.get("SELFVAL_JOBS", "1"))) as ex:
+            results = list(ex.map(one, todo))
         out = VERIF / "selfval" / "seeded.json"
     else:
         prop = a.prop.upper()
